@@ -609,6 +609,53 @@ def evalOpAssign (W : World) (x : Val) (op : Val) (rhs : Val) : Out Val :=
   | .func ff => ff.run2 W x rhs
   | _ => .throw
 
+/-- right-hand sides of an op-assignment that may mention the target variable itself -/
+inductive RhsE where
+  /-- an expression that does not mention the target, already evaluated -/
+  | const (b : Val)
+  /-- `x` -/
+  | target
+  /-- `g(x)` -/
+  | app (g : Func)
+  /-- `(x; b)`: reads the target, yields `b` -/
+  | seqTarget (b : Val)
+  /-- an expression that raises (`throw 1`) -/
+  | fails
+
+/-- evaluation of the right-hand side: the variable still holds `x` (eval.rs evaluates `rhs`
+BEFORE `drop_lhs` nulls the slot) -/
+def evalRhs (W : World) (x : Val) : RhsE → Out Val
+  | .const b => .ok b
+  | .target => .ok x
+  | .app g => g.run W [x]
+  | .seqTarget b => .ok b
+  | .fails => .throw
+
+/-- the `null` a dropped slot holds -/
+def nullVal : Val := .atom .null 999
+
+/-- `x f= rhs; x` on a plain untyped variable, in the order of the hot path of `Expr::OpAssign`:
+`lhs_value = x`; evaluate the operator; evaluate `rhs` (slot still `x`); `drop_lhs` (slot := null);
+`combined = ff.run2(lhs_value, rhs_value)`; `assign`; then the read of `x` -/
+def opAssignThenRead (W : World) (x : Val) (op : Val) (rhs : RhsE) : Out Val :=
+  match op with
+  | .func ff => (evalRhs W x rhs).bind fun r => ff.run2 W x r
+  | _ => .throw
+
+/-- what the variable holds after the statement, raised or not: untouched when the operator is
+not a function or the right-hand side raises, `null` when the operator itself raises (documented:
+the slot is null while the operator runs), the combined value otherwise -/
+def opAssignSlot (W : World) (x : Val) (op : Val) (rhs : RhsE) : Val :=
+  match op with
+  | .func ff =>
+    match evalRhs W x rhs with
+    | .ok r =>
+      match ff.run2 W x r with
+      | .ok c => c
+      | _ => nullVal
+    | _ => x
+  | _ => x
+
 /-! ### the library's application operators (bodies of lib.rs ~3756–3850, ~4860), reached through
 `EnvTwoArgBuiltin` / `TwoArgBuiltin` / `OneArgBuiltin` dispatch with *these* bodies -/
 
@@ -733,6 +780,14 @@ inductive Form where
   | secMix (pat : List Mix)
   /-- the same for a list section: `[_, ...[b, c]](a)` denotes the list `[a, b, c]` -/
   | listMix (pat : List Mix)
+  /-- `x := a; x f= x; x` (also `x := [a]; x[0] f= x[0]; x[0]`) -/
+  | opSelf
+  /-- `x := a; x f= g(x); x` for the user-defined function `g = closure c` -/
+  | opSelfApp (c : Nat)
+  /-- `x := a; x f= (x; b); x` -/
+  | opSeq
+  /-- `x := a; try x f= throw 1 catch _ -> 0; x` -/
+  | opRhsFails
   deriving DecidableEq, Repr
 
 /-- `f(a, _, c)`: the call arguments with an underscore at position `i` -/
@@ -774,6 +829,10 @@ def evalForm (W : World) (form : Form) (f : Func) (args : List Val) : Out Val :=
   | .listMix pat, _ =>
     (evalList W (mixBuild pat args).1).bind fun g =>
       evalCall W (some g) ((mixBuild pat args).2.map .val)
+  | .opSelf, [a] => opAssignThenRead W a fv .target
+  | .opSelfApp c, [a] => opAssignThenRead W a fv (.app (.closure c))
+  | .opSeq, [a, b] => opAssignThenRead W a fv (.seqTarget b)
+  | .opRhsFails, [a] => .ok (opAssignSlot W a fv .fails)
   | _, _ => .throw
 
 end Noulith.Apply
